@@ -21,7 +21,10 @@ EvMatches(e, o) ==
          [] e.op = "set" -> o.t = e.t /\ o.loc = e.loc /\ o.val = e.val
          [] e.op = "fail" -> /\ o.t = e.t /\ o.kind = e.kind
                              \* printed once with the file and line where it happened
-                             /\ (e.kind = "check" => o.infile = 1 /\ o.line = e.line /\ o.nloc = 1)
+                             \* (when the check stands outside the test's file, or before the test's line, the test's own
+                             \*  location line comes first: o.first)
+                             /\ (e.kind = "check" => /\ (o.infile = 1) = e.infile /\ o.line = e.line /\ o.nloc = e.nloc
+                                                     /\ (e.nloc = 2 => o.first = 1))
                              /\ (e.kind \in {"exception", "plugin"} => o.infile = 1 /\ o.line = 1000 * e.t /\ o.nloc = 1)
          [] e.op = "testEnd" -> o.t = e.t /\ o.jmp = e.jmp /\ o.cnt = e.cnt /\ PtrOK(e.ptr, o.ptr)
          [] e.op = "testsEnded" -> o.txt = e.s /\ o.res = e.s
